@@ -13,7 +13,7 @@ Record snap : Type := mkSnap
 
 Inductive res : Type := ROk | RRej | RPanic.
 Record cfg : Type := mkCfg
-  { c_min_tip : Z; c_pc : list addr; c_pv : list addr; c_pn : list addr; c_ac : list addr; c_se : list addr; c_fix : bool; c_mg : bool; c_rr : list addr }.
+  { c_min_tip : Z; c_pc : list addr; c_pv : list addr; c_pn : list addr; c_ac : list addr; c_se : list addr; c_fix : bool; c_mg : bool; c_rr : list addr; c_rc : bool }.
 (* a whole history: starting snapshot, then (operation, result, snapshot after; None = unchanged) *)
 Inductive c16_case : Type := CHist (c : nat) (start : snap) (steps : list (op * res * option snap)).
 
@@ -36,7 +36,7 @@ Fixpoint lookup_bal (l : list ((acct * string) * Z)) (x : acct) (d : string) : Z
 Definition state_of (c : cfg) (sn : snap) : state :=
   mkState (o_recs sn) (o_idx sn) (o_reqs sn)
           (fold_left Z.max (map r_id (o_recs sn)) 0) (fold_left Z.max (map q_id (o_reqs sn)) 0)
-          (o_ukeys sn) (c_min_tip c) (c_pc c) (c_pc c) (c_pv c) (c_pn c) (c_ac c) (c_se c) [] (lookup_bal (o_bal sn)) (c_fix c) (c_mg c) (c_rr c).
+          (o_ukeys sn) (c_min_tip c) (c_pc c) (c_pc c) (c_pv c) (c_pn c) (c_ac c) (c_se c) [] (lookup_bal (o_bal sn)) (c_fix c) (c_mg c) (c_rr c) (c_rc c).
 
 Definition snap_matches (s : state) (sn : snap) : bool :=
   list_eqb rec_eqb (recs s) (o_recs sn) && set_eqb ent_eqb (idx s) (o_idx sn) && list_eqb req_eqb (reqs s) (o_reqs sn)
@@ -199,13 +199,21 @@ Definition rotate_rr_ok (a b : addr) (pre post : snap) : bool :=
   && list_eqb req_eqb (o_reqs post)
        (map (fun q => mkReq (q_id q) (ren a b (q_addr q)) (ren a b (q_ver q)) (q_rids q) (q_denom q) (q_amt q) (q_date q)) (o_reqs pre)).
 
+(* a stored record whose (owner, key) index entry is missing or names another record *)
+Definition unindexed (sn : snap) : bool :=
+  existsb (fun r => negb (existsb (ent_eqb ((r_owner r, r_key r), r_id r)) (o_idx sn))) (o_recs sn).
+
 (* clause "reuse": request ids are never used twice *)
 Definition maxq (sn : snap) (m : Z) : Z := fold_left Z.max (map q_id (o_reqs sn)) m.
 
 Definition tag (c : string) (o : op) (t : string) : string :=
   match t with EmptyString => (c ++ "@" ++ kind o)%string | _ => (c ++ ":" ++ t)%string end.
 
-Definition step_clauses (start pre : snap) (o : op) (r : res) (osn : option snap) (seen : Z) : list string :=
+Definition maxr (sn : snap) (m : Z) : Z := fold_left Z.max (map r_id (o_recs sn)) m.
+Definition new_recs (pre post : snap) : list record :=
+  filter (fun r => match find_rec (o_recs pre) (r_id r) with Some _ => false | None => true end) (o_recs post).
+
+Definition step_clauses (start pre : snap) (o : op) (r : res) (osn : option snap) (seen seenr : Z) : list string :=
   match osn with
   | None => []                                    (* nothing observable changed *)
   | Some post =>
@@ -218,25 +226,27 @@ Definition step_clauses (start pre : snap) (o : op) (r : res) (osn : option snap
       (match o with
        | ORotate a b _ => if rotate_ok a b pre post then [] else [tag "rotate" o ""]
        | ORotateRR a b _ => if rotate_rr_ok a b pre post then [] else [tag "rotate" o ""]
-       | OGenesis => [tag "genesis" o ""]          (* export + import must change nothing observable *)
+       | OGenesis => [tag "genesis" o (if unindexed pre then "unindexed-record" else "")]   (* export + import must change nothing observable *)
        | _ => (if authority_ok o pre post then [] else [tag "authority" o ""]) ++
               (if payout_ok o pre post then [] else [tag "payout" o ""]) end) ++
-      (if forallb (fun q => seen <? q_id q) (created pre post) then [] else [tag "reuse" o ""])
+      (if forallb (fun q => seen <? q_id q) (created pre post) then [] else [tag "reuse" o ""]) ++
+      (* record ids are never used twice either (also not after a delete or a genesis round trip) *)
+      (if forallb (fun x => seenr <? r_id x) (new_recs pre post) then [] else [tag "reuse-record" o ""])
   end.
 
 Fixpoint dedup (l : list string) : list string :=
   match l with [] => [] | x :: r => if str_in x r then dedup r else x :: dedup r end.
-Fixpoint hist_clauses (start pre : snap) (seen : Z) (l : list (op * res * option snap)) : list string :=
+Fixpoint hist_clauses (start pre : snap) (seen seenr : Z) (l : list (op * res * option snap)) : list string :=
   match l with
   | [] => []
   | (o, r, osn) :: rest =>
       let post := match osn with Some x => x | None => pre end in
-      step_clauses start pre o r osn seen ++ hist_clauses start post (maxq post seen) rest
+      step_clauses start pre o r osn seen seenr ++ hist_clauses start post (maxq post seen) (maxr post seenr) rest
   end.
 Definition case_clauses (c : c16_case) : list string :=
   match c with CHist _ start steps =>
     (match conflicts start with [] => [] | _ => ["unique@init"%string] end) ++
-    dedup (hist_clauses start start (maxq start 0) steps) end.
+    dedup (hist_clauses start start (maxq start 0) (maxr start 0) steps) end.
 
 Fixpoint violations_from (n : nat) (cs : list c16_case) : list (nat * list string) :=
   match cs with [] => [] | c :: r =>
